@@ -10,20 +10,21 @@ import (
 
 // ProgOpts tunes the program generator.
 type ProgOpts struct {
-	Depth      int  // maximal nesting of blocks
-	Block      int  // maximal statements per block
-	Funcs      int  // maximal number of user functions (0 = none)
-	Clash      bool // draw parameter/local/loop names from a pool shared with globals
-	OptBias    bool // more constant arithmetic / constant conditions / expression statements
-	IncDec     bool // use ++ / -- and compound assignments
-	Ternary    bool
-	Switch     bool
-	EarlyRet   bool // returns anywhere
-	ErrStmts   bool // occasionally a statement that fails at run time
-	NoSqrtFold bool
-	BigInts    bool // integer literals around the inline limit
-	PoolShift  bool // 0-40 dummy assignments first, so that names land on every constant-pool index
-	StringIter bool
+	Depth       int  // maximal nesting of blocks
+	Block       int  // maximal statements per block
+	Funcs       int  // maximal number of user functions (0 = none)
+	Clash       bool // draw parameter/local/loop names from a pool shared with globals
+	OptBias     bool // more constant arithmetic / constant conditions / expression statements
+	IncDec      bool // use ++ / -- and compound assignments
+	Ternary     bool
+	Switch      bool
+	EarlyRet    bool // returns anywhere
+	ErrStmts    bool // occasionally a statement that fails at run time
+	NoSqrtFold  bool
+	BigInts     bool // integer literals around the inline limit
+	PoolShift   bool // 0-40 dummy assignments first, so that names land on every constant-pool index
+	StringIter  bool
+	VoidOperand bool // now and then a value-less function is used as an operand (a run-time error)
 }
 
 // Input is the data a generated program runs against.
@@ -586,6 +587,13 @@ func (g *pg) funcDef(i int) lang.Stmt {
 		depth = 1
 	}
 	body = append(body, g.block(depth)...)
+	if g.chance("nestedfn", 12) {
+		// a function defined inside this one (it is global like any other). It
+		// comes after every 'local' of the body: the parser forgets that it is
+		// inside a function once a nested definition ends. For a value-less
+		// function it is the last statement of the body.
+		body = append(body, lang.FuncDef{N: fmt.Sprintf("n%s", f.name), Params: []string{"q"}, Body: []lang.Stmt{lang.Return{X: lang.Binary{Op: "+", L: lang.Name{N: "q"}, R: lang.Lit{V: lang.Int(1)}}}}})
+	}
 	if !f.void {
 		body = append(body, lang.Return{X: g.intExpr(2)})
 	}
@@ -691,6 +699,21 @@ func Program(t *rapid.T, o ProgOpts) *Prog {
 	out.NFuncs = nf
 
 	body := g.block(o.Depth)
+	if o.VoidOperand && nf > 0 && g.chance("voidoperand", 6) {
+		// a value-less function used as an operand is a run-time error; it is
+		// placed first, where nothing is left on the stack that could be taken
+		// for its result
+		for _, f := range g.fns {
+			if f.void && !f.recur {
+				args := make([]lang.Expr, len(f.params))
+				for i := range args {
+					args[i] = g.intLit()
+				}
+				body = append([]lang.Stmt{lang.Assign{N: g.ints[0], X: lang.Call{Fn: f.name, Args: args}}}, body...)
+				break
+			}
+		}
+	}
 	if g.chance("finalret", 85) {
 		body = append(body, lang.Return{X: g.retExpr()})
 	}
@@ -733,7 +756,6 @@ func VaryFields(t *rapid.T, fields []Binding) []Binding {
 	}
 	return out
 }
-
 
 // ConstTree draws an arithmetic tree over small integer literals only, in
 // any nesting shape; intermediate results may be negative or exceed the
